@@ -53,7 +53,7 @@ impl<T: Float> KahanSum<T> {
     /// Return the current value of the sum
     ///
     pub fn value(&self) -> T {
-        self.sum + self.compensation
+        self.sum - self.compensation
     }
 }
 
@@ -77,16 +77,21 @@ impl<T: Float + core::fmt::Display> core::fmt::Display for KahanSum<T> {
 
 impl<T: Float> core::ops::AddAssign<Self> for KahanSum<T> {
     fn add_assign(&mut self, rhs: Self) {
-        // The kernel recovers the rounding error of an addition only if the running sum is the
-        // larger operand, and a register stands for `sum - compensation`: add the smaller register
-        // into the larger one, and take its compensation with that sign.
+        // A register stands for `sum - compensation`.  The rounding error of adding the two sums
+        // is recovered exactly only if the larger one comes first (Dekker), and the two
+        // compensations are added up separately rather than folded into an operand, where the
+        // rounding of that operand would swallow them.
         let (mut acc, other) = if rhs.sum.abs() > self.sum.abs() {
             (rhs, *self)
         } else {
             (*self, rhs)
         };
-        kahan_add(&mut acc.sum, other.sum, &mut acc.compensation);
-        kahan_add(&mut acc.sum, -other.compensation, &mut acc.compensation);
+        let total = acc.sum + other.sum;
+        let error = (total - acc.sum) - other.sum;
+        let residue = (acc.compensation + other.compensation) + error;
+        // fold the residue back into the sum, so that the compensation remains a rounding residue
+        acc.sum = total - residue;
+        acc.compensation = (acc.sum - total) + residue;
         *self = acc;
     }
 }
